@@ -118,6 +118,9 @@ def run(tier, seed):
         lit["nonlinear"] = p["nonlinear"]
         lit["obs"] = [{"obs": "onestep", "params": {}}] + ([{"obs": "run", "solver": "euler", "params": {}}] if len(obs) == 3 else [])
         progs.append(lit)
+    # probe of a known finding (known_findings.json: superseded-infectiousness-parameter), carried by a minimal pair
+    progs.append(carrier([{"obs": "oracle", "name": "c09_superseded"}]))
+    progs.append(carrier([]))
     ex = checklib.explore(progs, keys=KEYS, per_prog_timeout=40.0)
     # model-side consistency: parameterised and literal twins give the same model observations
     extra = []
